@@ -24,6 +24,7 @@ import (
 )
 
 type ScenInit struct {
+	Sid     int             `json:"sid"`
 	R       []int           `json:"r"`
 	H       int             `json:"h"`
 	Dev     []interface{}   `json:"dev"`
@@ -66,7 +67,7 @@ func twinDiff(a, b *Machine) string {
 func toInt(v interface{}) int { return int(v.(float64)) }
 
 func (si *ScenInit) Spec() *InitSpec {
-	is := &InitSpec{Halt: si.H != 0, Cells: dedupe(si.Cells), IOCells: si.IOCells, Pend: si.Pend}
+	is := &InitSpec{Sid: si.Sid, Halt: si.H != 0, Cells: dedupe(si.Cells), IOCells: si.IOCells, Pend: si.Pend}
 	copy(is.R[:], si.R)
 	is.Dev = DevDesc{Kind: si.Dev[0].(string), Seed: toInt(si.Dev[1]), Val: toInt(si.Dev[2]), Len: toInt(si.Dev[3])}
 	is.IO = IODesc{Kind: si.IO[0].(string), Seed: toInt(si.IO[1]), Len: toInt(si.IO[2])}
